@@ -166,6 +166,23 @@ def applyEv (s : PSt) (ty : EvTy) (id : Str) (author : Option Str) : PSt :=
   | .delEnd => { s with del := revDel id s.del }
   | .ref => s
 
+/-- append a run's segment to the pending text (same wrappers) or start a new buffer -/
+def PSt.push (s : PSt) (seg : Str) (nw : Str × Str) : PSt :=
+  if !s.pending.isEmpty && nw = s.wr then { s with pending := s.pending ++ seg }
+  else
+    let s0 := if s.pending.isEmpty then s else { s with out := s.out ++ s.wr.1 ++ s.pending ++ s.wr.2 }
+    { s0 with pending := seg, wr := nw }
+
+/-- metadata handling after a run (raw view): snapshot, look-ahead, deferred or emitted block -/
+def PSt.meta (cm : CMap) (s1 : PSt) (rest : List Item) : PSt :=
+  let s2 := { s1 with deferred := s1.deferred ++ [{ ins := s1.ins, del := s1.del, comments := s1.comments }] }
+  let redline := !s2.ins.isEmpty || !s2.del.isEmpty
+  let defer := redline && nextIsRedline (!s2.ins.isEmpty) (!s2.del.isEmpty) rest
+  if defer then s2
+  else
+    let s3 := s2.flush
+    { s3 with out := s3.out ++ metaWrap (metaBlock cm s3.deferred), deferred := [] }
+
 /-- `_build_paragraph_text`, one item at a time -/
 def paraStep (clean : Bool) (cm : CMap) (s : PSt) (item : Item) (rest : List Item) : PSt :=
   match item with
@@ -178,20 +195,8 @@ def paraStep (clean : Bool) (cm : CMap) (s : PSt) (item : Item) (rest : List Ite
       if seg.isEmpty then s
       else
         let nw := if clean then ([], []) else wrappers s.ins s.del s.comments
-        let s1 : PSt :=
-          if !s.pending.isEmpty && nw = s.wr then { s with pending := s.pending ++ seg }
-          else
-            let s0 := if s.pending.isEmpty then s else { s with out := s.out ++ s.wr.1 ++ s.pending ++ s.wr.2 }
-            { s0 with pending := seg, wr := nw }
-        if clean then s1
-        else
-          let s2 := { s1 with deferred := s1.deferred ++ [{ ins := s1.ins, del := s1.del, comments := s1.comments }] }
-          let redline := !s2.ins.isEmpty || !s2.del.isEmpty
-          let defer := redline && nextIsRedline (!s2.ins.isEmpty) (!s2.del.isEmpty) rest
-          if defer then s2
-          else
-            let s3 := s2.flush
-            { s3 with out := s3.out ++ metaWrap (metaBlock cm s3.deferred), deferred := [] }
+        let s1 := s.push seg nw
+        if clean then s1 else s1.meta cm rest
 
 def paraLoop (clean : Bool) (cm : CMap) : PSt → List Item → PSt
   | s, [] => s
